@@ -19,6 +19,22 @@ def result_node(ex, okb, payload, name):
     return r
 
 
+def m_errobj(ex, st, callee, args, dty, site):
+    """ErrorCode -> ErrorObject conversion: keeps the error class visible"""
+    v = MM.value_of(ex, args[0])
+    nm = "?"
+    if isinstance(v, Node) and "discr" in v.kids:
+        d = z3.simplify(ex.read_node(v.kids["discr"]))
+        if z3.is_bv_value(d):
+            nm = R.source_tables()["enums"]["ErrorCode"][d.as_long()]
+    elif isinstance(v, Opaque):
+        nm = str(v.term).split(":")[-1]
+    return Opaque(z3.Const(f"errobj:ErrorCode::{nm}", OBJ))
+
+
+ERROBJ_MODELS = [(r"^<ErrorCode as Into<ErrorObject<'_>>>::into$|^<ErrorObject<'_> as From<ErrorCode>>::from$", m_errobj)]
+
+
 def parser_models(k, single=False):
     """the three per-message parsers as independent solver-chosen outcomes per element; returns (models, symbols)"""
     sym = {"okC": [z3.Bool(f"e{i}.is_call") for i in range(max(k, 1))], "okN": [z3.Bool(f"e{i}.is_notification") for i in range(max(k, 1))],
@@ -60,16 +76,6 @@ def parser_models(k, single=False):
             ex.write(kk, a)
             n.kids[j] = kk
         return n
-    def m_errobj(ex, st, callee, args, dty, site):
-        v = MM.value_of(ex, args[0])
-        nm = "?"
-        if isinstance(v, Node) and "discr" in v.kids:
-            d = z3.simplify(ex.read_node(v.kids["discr"]))
-            if z3.is_bv_value(d):
-                nm = R.source_tables()["enums"]["ErrorCode"][d.as_long()]
-        elif isinstance(v, Opaque):
-            nm = str(v.term).split(":")[-1]
-        return Opaque(z3.Const(f"errobj:ErrorCode::{nm}", OBJ))
     models = [
         (r"^<ErrorCode as Into<ErrorObject<'_>>>::into$|^<ErrorObject<'_> as From<ErrorCode>>::from$", m_errobj),
         (r"^call::from_(str|slice)$", m_call),
